@@ -41,10 +41,12 @@ def column_code(ck, n):
     for kind, col in (("sum", c11.reals("v", n)), ("sum", c11.bools("v", n)), ("mean", c11.reals("v", n)), ("max", c11.reals("v", n)), ("min", c11.ints("v", n)),
                       ("any", c11.bools("v", n)), ("all", c11.bools("v", n))):
         cases.append((f"grouped_{kind}[{col.dtype}]", getattr(A, f"grouped_{kind}"), (lambda col=col: {"column": col, "group_id": gid}), pre_g))
-    labs = c11.LABELS[n][1]
     ptr = c11.ints("ptr", n)
-    valid = [z3.Or([p.t < 0] + [p.t == q for q in labs]) for p in ptr.e]
-    cases.append(("sum_by_p_id", A.sum_by_p_id, lambda: {"column": c11.reals("v", n), "p_id_to_aggregate_by": ptr, "p_id_to_store_by": SymArray(list(labs), int)}, valid))
+    # sparse unsorted labels, and the running number 0..n-1 (every row order of it is then a permutation of 0..n-1)
+    for labs in (c11.LABELS[n][1], c11.LABELS[n][0]):
+        valid = [z3.Or([p.t < 0] + [p.t == q for q in labs]) for p in ptr.e]
+        cases.append((f"sum_by_p_id{labs}", A.sum_by_p_id,
+                      (lambda labs=labs: {"column": c11.reals("v", n), "p_id_to_aggregate_by": ptr, "p_id_to_store_by": SymArray(list(labs), int)}), valid))
     fk, pk = c11.ints("fk", n), c11.ints("pk", n)
     pkd = [z3.Distinct([p.t for p in pk.e])] if n > 1 else []
     fkok = [z3.Or([f.t < 0] + [f.t == p.t for p in pk.e]) for f in fk.e]
@@ -55,10 +57,11 @@ def column_code(ck, n):
     for name, f in load_internal_functions().items():
         if gt.is_skipvec(f):
             cases.append((f"skipvec {name}", f, None, None))
+            cases.append((f"skipvec {name} [p_id 0..n-1]", f, None, "running"))
     for label, f, mk, pre in cases:
         try:
             if mk is None:
-                kw, pre = skipvec_args(f, n)
+                kw, pre = skipvec_args(f, n, running=(pre == "running"))
             else:
                 kw = mk()
             base, ctx = c11.run_real(f, **kw)
@@ -84,11 +87,11 @@ def column_code(ck, n):
             report(ck, label, f, kw, m, perms)
 
 
-def skipvec_args(f, n):
+def skipvec_args(f, n, running=False):
     """symbolic columns for a skip_vectorization rule; p_id concrete labels, pointers symbolic"""
     import inspect
     import typing
-    labs = c11.LABELS[n][1]
+    labs = c11.LABELS[n][0] if running else c11.LABELS[n][1]
     kw, pre = {}, []
     for a in inspect.signature(f).parameters:
         ann = f.__annotations__.get(a)
